@@ -228,7 +228,11 @@ var newMap = Func(func(a Arguments) reflect.Value {
 var newSlice = Func(func(a Arguments) reflect.Value {
 	arr := make([]interface{}, a.NumOfArguments())
 	for i := 0; i < a.NumOfArguments(); i++ {
-		arr[i] = a.Get(i).Interface()
+		v := a.Get(i)
+		if !v.IsValid() {
+			a.Panicf("slice(): argument at position %d is not a valid value!", i)
+		}
+		arr[i] = v.Interface()
 	}
 	return reflect.ValueOf(arr)
 })
